@@ -593,4 +593,45 @@ func checkTokenProvenance(c *Ctx, rule string) {
 		}
 	}
 	c.Floor(rule, "authorizer_constructions", n, 5)
+	// … and inside the constructors: the configured tokens are tested for emptiness and copied as given. A transformation
+	// there (trimming, case folding) can turn a non-empty configured token into an empty one, which the constructor then
+	// drops — and an empty allowlist means "no tokens configured: allow"
+	ctors := map[*ssa.Function]bool{}
+	for _, src := range order {
+		if cf := src.(ssa.CallInstruction).Common().StaticCallee(); cf != nil {
+			ctors[p.Orig(cf)] = true
+		}
+	}
+	nC := 0
+	for _, cf := range sortedFuncs(ctors) {
+		if len(cf.Params) == 0 {
+			continue
+		}
+		nC++
+		v := p.View(cf)
+		prm := v.Params[0]
+		bad := ""
+		pos := p.Pos(cf.Pos())
+		for _, b := range v.Blocks {
+			for _, ins := range b.Instrs {
+				call, ok := ins.(*ssa.Call)
+				if !ok {
+					continue
+				}
+				if _, isB := call.Call.Value.(*ssa.Builtin); isB {
+					continue
+				}
+				for _, a := range call.Call.Args {
+					if dependsOn(a, prm, map[ssa.Value]bool{}) && bad == "" {
+						bad = callDesc(call)
+						pos = p.InstrPos(call)
+					}
+				}
+			}
+		}
+		c.Check(bad == "", rule, FuncName(cf)+":configured tokens are kept as given", pos,
+			"the constructor only measures and copies the configured tokens",
+			"the constructor passes the configured tokens through "+bad+" before its emptiness test: a configured token that the transformation empties (whitespace only) is dropped, the allowlist becomes empty and every request is authorized")
+	}
+	c.Floor(rule, "authorizer constructors", nC, 3)
 }
